@@ -485,6 +485,105 @@ fn backslash_location_family(g: &mut G, ctx: &RunCtx) -> RunReport {
     RunReport { verdict, shape: format!("backslash/{}/{}/a_direct={}", status, spelling.len(), a_direct), nontrivial: true, stats, sched_tape: out.sched_tape, describe: if ctx.describe { desc } else { String::new() } }
 }
 
+/// A server that answers with a redirect as soon as it has the request's head and hangs up without reading the
+/// body: the request on that hop was never completed.  Failing is fine; following is fine only for a client
+/// that finished the request first - a hop that was cut short in mid-upload is not "a complete well-formed
+/// request", whatever was sent afterwards.
+fn early_answer_family(g: &mut G, ctx: &RunCtx) -> RunReport {
+    use crate::peers::{Act, RespondWhen, Script};
+    g.probe("family:redirect-answered-before-the-upload-was-read");
+    let status = *g.pick(&[307u16, 308, 302, 303]);
+    let body_len = *g.pick(&[300_000usize, 1_000_000, 150_000]);
+    let method = *g.pick(&["POST", "PUT"]);
+    // (a server that closes a socket with unread data in it resets the connection; one that only closes its
+    // sending side and never reads is a stalled peer, and this request has no deadline)
+    let _ = g.chance(1, 2);
+    let end_rst = true;
+    let a_ip: IpAddr = "10.0.0.1".parse().unwrap();
+    let b_ip: IpAddr = "10.0.0.2".parse().unwrap();
+    let sim = Sim::new(ctx.sim_config());
+    sim.add_host("a.test", vec![a_ip]);
+    sim.add_host("b.test", vec![b_ip]);
+    let seen = Arc::new(Mutex::new(Seen::default()));
+    {
+        let seen2 = seen.clone();
+        sim.add_listener(
+            a_ip,
+            80,
+            ConnectBehaviour::Accept { latency_ns: NS_PER_MS },
+            Some(Box::new(move |_i| {
+                let mut p = HttpPeer::new(
+                    Arc::new(move |_r, _c| {
+                        let mut s = Script::default();
+                        s.acts.push(Act::Send(format!("HTTP/1.1 {} Moved\r\nLocation: http://b.test/next\r\nContent-Length: 0\r\n\r\n", status).into_bytes()));
+                        s.acts.push(Act::Wait(NS_PER_MS));
+                        s.acts.push(if end_rst { Act::Rst } else { Act::Fin });
+                        s
+                    }),
+                    seen2.clone(),
+                );
+                p.when = RespondWhen::HeadComplete;
+                p.stop_reading_after = Some(1);
+                Box::new(p)
+            })),
+        );
+    }
+    {
+        let seen2 = seen.clone();
+        sim.add_listener(
+            b_ip,
+            80,
+            ConnectBehaviour::Accept { latency_ns: NS_PER_MS },
+            Some(Box::new(move |_i| {
+                Box::new(HttpPeer::new(
+                    Arc::new(move |_r, _c| {
+                        let mut s = Script::default();
+                        s.acts.push(Act::Send(b"HTTP/1.1 200 OK\r\nContent-Length: 2\r\n\r\nok".to_vec()));
+                        s.acts.push(Act::Fin);
+                        s
+                    }),
+                    seen2.clone(),
+                ))
+            })),
+        );
+    }
+    let out = sim.run(|| {
+        let r = attohttpc::RequestBuilder::new(attohttpc::Method::from_bytes(method.as_bytes()).unwrap(), "http://a.test/upload")
+            .proxy_settings(attohttpc::ProxySettings::builder().build())
+            .read_timeout(std::time::Duration::from_secs(5))
+            .bytes(vec![b'u'; body_len])
+            .send();
+        match r {
+            Ok(r) => Ok(r.status().as_u16()),
+            Err(e) => Err(err_kind(&e)),
+        }
+    });
+    let mut stats = Stats::default();
+    stats.absorb(&out.history);
+    let desc = format!("{} http://a.test/upload with {} body octets; the server answers {} after the head and {} without reading on", method, body_len, status, if end_rst { "resets" } else { "closes" });
+    let verdict = match &out.result {
+        None => violation("hang", "run torn down"),
+        Some(Err(m)) => violation("panic", m.clone()),
+        Some(Ok(res)) => {
+            let conns = &out.history.conns;
+            let first = conns.first().map(|c| c.client_bytes()).unwrap_or_default();
+            let head_end = first.windows(4).position(|w| w == b"\r\n\r\n").map(|p| p + 4).unwrap_or(0);
+            let complete = head_end > 0 && first.len() >= head_end + body_len;
+            if conns.len() >= 2 && !complete {
+                violation(
+                    "hop-followed-although-the-request-before-it-was-cut-short",
+                    format!("{} of {} body octets of the first hop's request were written when the connection ended, and the client went on to http://b.test/next (result {:?}; {})", first.len().saturating_sub(head_end), body_len, res, desc),
+                )
+            } else if res.is_ok() && !complete {
+                violation("send-ok-although-the-request-was-cut-short", format!("{:?} ({})", res, desc))
+            } else {
+                Verdict::Pass
+            }
+        }
+    };
+    RunReport { verdict, shape: format!("early-answer/{}/{}/{}/rst={}", method, status, body_len, end_rst), nontrivial: true, stats, sched_tape: out.sched_tape, describe: if ctx.describe { desc } else { String::new() } }
+}
+
 pub fn scenario(g: &mut G, ctx: &RunCtx) -> RunReport {
     let mut plan: ReqPlan = reqgen::gen_request(g, if ctx.thorough { 100_000 } else { 20_000 });
     // the first URL's query is part of node 0's identity: keep the caller's params out of the way of routing
@@ -609,6 +708,9 @@ pub fn scenario(g: &mut G, ctx: &RunCtx) -> RunReport {
     }
     if g.chance(1, 20) {
         return backslash_location_family(g, ctx);
+    }
+    if g.chance(1, 25) {
+        return early_answer_family(g, ctx);
     }
     let url0 = gr.nodes[0].url.clone();
     let no_proxy2: Vec<String> = no_proxy.iter().map(|s| s.to_string()).collect();
